@@ -140,6 +140,9 @@ type LockInfo struct {
 	Requires map[*ssa.Function]bool // function must be called with the lock held
 	Acquires map[*ssa.Function]bool // function takes the lock itself (on some path) when entered without it
 	FlagOf   map[*ssa.Function]*ssa.Parameter
+	// Handoff: functions that take the lock and hand its release to the caller: they return (with the
+	// lock held) a function value that unlocks it — `func (x *T) lock() func() { x.mu.Lock(); return x.mu.Unlock }`.
+	Handoff  map[*ssa.Function]bool
 	states   map[lockCtx]map[ssa.Instruction]LState
 	Problems []LockProblem
 	// Ops lists every protected operation found with the state it executes in (final contexts).
@@ -164,7 +167,7 @@ type lockCtx struct {
 // AnalyzeLocks runs the analysis.
 func AnalyzeLocks(spec LockSpec) *LockInfo {
 	li := &LockInfo{Spec: spec, Requires: map[*ssa.Function]bool{}, Acquires: map[*ssa.Function]bool{},
-		FlagOf: map[*ssa.Function]*ssa.Parameter{}, states: map[lockCtx]map[ssa.Instruction]LState{}}
+		FlagOf: map[*ssa.Function]*ssa.Parameter{}, Handoff: map[*ssa.Function]bool{}, states: map[lockCtx]map[ssa.Instruction]LState{}}
 	inScope := map[*ssa.Function]bool{}
 	li.byObj = map[*types.Func]*ssa.Function{}
 	for _, f := range spec.Funcs {
@@ -195,6 +198,12 @@ func AnalyzeLocks(spec LockSpec) *LockInfo {
 					}
 				}
 			}
+		}
+	}
+	// 1b. hand-off wrappers
+	for _, f := range spec.Funcs {
+		if li.Acquires[f] && li.FlagOf[f] == nil && isHandoff(f, spec.ID) {
+			li.Handoff[f] = true
 		}
 	}
 	// 2. fixpoint on Requires for non-flag functions
@@ -407,11 +416,30 @@ func (li *LockInfo) run(cx lockCtx, inScope map[*ssa.Function]bool, problems *[]
 				}
 				continue
 			}
+			// the release function handed out by a hand-off wrapper is called or deferred
+			if !c.Common().IsInvoke() && c.Common().StaticCallee() == nil {
+				if li.fromHandoff(c.Common().Value, inScope) {
+					if _, isDefer := ins.(*ssa.Defer); isDefer {
+						def = true
+					} else {
+						s = LNotHeld
+					}
+					continue
+				}
+			}
 			g := li.scopeCallee(c, inScope)
 			if g == nil {
 				continue
 			}
 			if _, isDefer := ins.(*ssa.Defer); isDefer {
+				continue
+			}
+			if li.Handoff[g] {
+				if s == LHeld && !reported[ins] {
+					reported[ins] = true
+					report(LockProblem{Kind: "acquire-while-held", Fn: f, At: ins, Detail: g.Name() + " takes " + li.Spec.ID.String() + " which is already held: self-deadlock"})
+				}
+				s = LHeld
 				continue
 			}
 			if fp := li.FlagOf[g]; fp != nil {
@@ -431,7 +459,7 @@ func (li *LockInfo) run(cx lockCtx, inScope map[*ssa.Function]bool, problems *[]
 			}
 		}
 		if _, isRet := lastInstr(b).(*ssa.Return); isRet && problems != nil {
-			if s == LHeld && !cx.held && !def {
+			if s == LHeld && !cx.held && !def && !li.Handoff[f] {
 				ret := lastInstr(b)
 				if !reported[ret] {
 					reported[ret] = true
@@ -517,3 +545,76 @@ func IsFieldAccess(in ssa.Instruction, n *types.Named, field string) bool {
 }
 
 var _ = token.NoPos
+
+// isHandoff: f locks id, never unlocks it, and every return hands back a function value that
+// unlocks it (the bound Unlock method of the same mutex field, or a literal that calls it).
+func isHandoff(f *ssa.Function, id LockID) bool {
+	unlocksID := func(fn *ssa.Function) bool {
+		found := false
+		Calls(fn, func(c ssa.CallInstruction) {
+			if l, op := MutexOp(c); op == "unlock" && l.Same(id) {
+				found = true
+			}
+		})
+		return found
+	}
+	if unlocksID(f) {
+		return false
+	}
+	rets := Returns(f)
+	if len(rets) == 0 {
+		return false
+	}
+	for _, ret := range rets {
+		ok := false
+		for i := range ret.Results {
+			mc, isMC := ReturnOperand(ret, i).(*ssa.MakeClosure)
+			if !isMC {
+				continue
+			}
+			lit, _ := mc.Fn.(*ssa.Function)
+			if lit == nil {
+				continue
+			}
+			if lit.Synthetic != "" {
+				// bound method value x.mu.Unlock: the wrapper forwards to (*sync.Mutex).Unlock with the bound receiver
+				boundOK := false
+				for _, b := range mc.Bindings {
+					if fa, isFA := b.(*ssa.FieldAddr); isFA {
+						if n, fld := FieldAddrInfo(fa); n != nil && (LockID{T: n, Field: fld}).Same(id) {
+							boundOK = true
+						}
+					}
+				}
+				unl := false
+				Calls(lit, func(c ssa.CallInstruction) {
+					if cal := Callee(c); cal != nil && cal.Pkg() != nil && cal.Pkg().Path() == "sync" && (cal.Name() == "Unlock" || cal.Name() == "RUnlock") {
+						unl = true
+					}
+				})
+				if boundOK && unl {
+					ok = true
+				}
+			} else if unlocksID(lit) {
+				ok = true
+			}
+		}
+		if !ok {
+			return false
+		}
+	}
+	return true
+}
+
+// fromHandoff: the function value originates from the result of a call of a hand-off wrapper.
+func (li *LockInfo) fromHandoff(v ssa.Value, inScope map[*ssa.Function]bool) bool {
+	for _, o := range Origins(v, SliceOpts{}) {
+		if o.Kind != OCall {
+			continue
+		}
+		if g := li.scopeCallee(o.Call, inScope); g != nil && li.Handoff[g] {
+			return true
+		}
+	}
+	return false
+}
